@@ -16,9 +16,16 @@ def default_algo(seed):
 
 class Dm14World:
     def __init__(self, seed, seedkey=False, algo=None, srv_algo=None, seeds=None, windows=(255, 255), latency=(0.0001, 0.005), respond_delay=None,
-                 with_server=True, cli_addr=CLI, srv_addr=SRV, second_client=None):
+                 with_server=True, cli_addr=CLI, srv_addr=SRV, second_client=None, app_preempt=0.0):
         self.W = W = World(seed, 'j1939-21', latency)
         self.sim = W.sim
+        # app_preempt > 0: the application threads (the client task calling read/write, the serving task calling respond) are pre-empted at
+        # random source lines inside the library for 0.2..3 ms while reception and the job threads go on
+        self.app_holds = [0]
+        self.app_trace = None
+        if app_preempt:
+            from vt import preempt as PRE
+            self.app_trace = PRE.random_tracer(self.sim, seed ^ 0xA99, p=app_preempt, holds=(0.0002, 0.001, 0.003), counter=self.app_holds, max_holds=300)
         self.j = j = W.j1939
         self.rng = random.Random(seed ^ 0x1234)
         self.C = W.stack('C', max_cmdt_packets=windows[0])
@@ -74,7 +81,15 @@ class Dm14World:
         plan = self.ctx['respond']
         snapshot = dict(self.ctx)
         last = self.proceed_calls[-1] if self.proceed_calls else None
-        self.sim.after(d, lambda: self.sim.spawn(self._app_task, snapshot, last, plan, name='srvapp'))
+        self.sim.after(d, lambda: self.spawn_app(self._app_task, snapshot, last, plan, name='srvapp'))
+
+    def spawn_app(self, fn, *a, name='app'):
+        keep = self.sim.trace_hook
+        self.sim.trace_hook = self.app_trace
+        try:
+            return self.sim.spawn(fn, *a, name=name)
+        finally:
+            self.sim.trace_hook = keep
 
     def _app_task(self, ctx, last, plan):
         srv = self.srv
@@ -136,7 +151,7 @@ class Dm14World:
                 if op.get('gap', gap) > 0:
                     engine._vsleep(op.get('gap', gap))
             done.append(self.sim.now)
-        self.sim.spawn(task, name='cliapp')
+        self.spawn_app(task, name='cliapp')
         t_limit = self.sim.now + sum(op.get('timeout', timeout) + op.get('gap', gap) + 4.0 for op in ops) + until_extra
         while not done and self.sim.now < t_limit and not self.W.runaway:
             self.W.run(min(self.sim.now + 0.5, t_limit))
